@@ -4,7 +4,7 @@
    deriv2/3, sderivs are the executable model (Model/FiniteDiff.v) that the correspondence runs against the code. *)
 From Coq Require Import ZArith QArith Qcanon List Permutation Lia.
 From DV Require Import Base.Field Base.LinAlg Base.QcInst Model.BSplineBase Gen.BSpline Model.BSpline
-  Gen.FlowDeriv Model.FiniteDiff Proofs.C12FD Proofs.C12ND Proofs.C12ND3 Proofs.C12Flow Proofs.C12Vec Proofs.C12Keys.
+  Gen.FlowDeriv Model.FiniteDiff Proofs.C12FD Proofs.C12ND Proofs.C12ND3 Proofs.C12Flow Proofs.C12Vec Proofs.C12Quad Proofs.C12Quad2 Proofs.C14Eval Proofs.C12Keys.
 Import ListNotations.
 Local Open Scope fld_scope.
 
@@ -35,6 +35,26 @@ Theorem C12_second_derivative_exact :
   nth i (fd1 m h (fd1 m h (quad_seq a b c h n))) 0 = (1 + 1) * a.
 Proof. exact fd1_quadratic_exact. Qed.
 Print Assumptions C12_second_derivative_exact.
+
+(* 2b. second derivatives of quadratic *fields* in 2-D and 3-D (all ten / six coefficients, cross terms included), for the
+       sorted key [a; b] as spatial_derivatives evaluates it (difference along a, then along b, each preceded by the prewitt /
+       sobel smoothing of the other axes): exact -- 2 q_aa for pure, q_ab for mixed keys -- at every point at least two samples
+       away from the boundary; all six modes, all shapes, all spacings <> 0 *)
+Theorem C12_second_derivative_field_2d :
+  forall (K : fld), is_field K -> char0 K ->
+  forall (m : fdmode) (hx hy : K) (q : quad2 (K:=K)) (nx ny a b x y : nat),
+  hx <> 0 -> hy <> 0 -> (a < 2)%nat -> (b < 2)%nat -> inm 2 nx x -> inm 2 ny y ->
+  at2 (deriv2 m [hx; hy] [a; b] (quad_field2 hx hy q nx ny)) y x = d2q2 q a b.
+Proof. exact second_derivative_quadratic_2d. Qed.
+Print Assumptions C12_second_derivative_field_2d.
+
+Theorem C12_second_derivative_field_3d :
+  forall (K : fld), is_field K -> char0 K ->
+  forall (m : fdmode) (hx hy hz : K) (q : quad3 (K:=K)) (nx ny nz a b x y z : nat),
+  hx <> 0 -> hy <> 0 -> hz <> 0 -> (a < 3)%nat -> (b < 3)%nat -> inm 2 nx x -> inm 2 ny y -> inm 2 nz z ->
+  at3 (deriv3 m [hx; hy; hz] [a; b] (quad_field3 hx hy hz q nx ny nz)) z y x = d2q K q a b.
+Proof. exact second_derivative_quadratic_3d. Qed.
+Print Assumptions C12_second_derivative_field_3d.
 
 (* 3. prewitt / sobel: the smoothing across the other axes reproduces affine data away from its zero padding ... *)
 Theorem C12_smoothing_preserves_affine :
@@ -197,6 +217,22 @@ Theorem C12_lie_bracket_affine_3d :
   nth x (nth y (nth z (lie3_field m [hx; hy; hz] v u nz ny nx) []) []) [] = lie_spec B A (vec3_at v z y x) (vec3_at u z y x).
 Proof. exact lie_3d. Qed.
 Print Assumptions C12_lie_bracket_affine_3d.
+
+(* 5c. B-spline mode (spatial_derivatives(mode='bspline'), model bsd3_at = order-(dx,dy,dz) spline weights / spacing^order,
+       the weights being the analytic basis derivatives by C14_weights_are_basis): on coefficients that are an affine function
+       of the physical control point position, the first partial derivatives are its slopes at every output sample, for
+       every stride, output size and coefficient-grid spacing <> 0 -- no boundary exclusion *)
+Theorem C12_bspline_mode_gradient :
+  forall (K : fld), is_field K -> char0 K ->
+  forall (sx sy sz mx my mz : nat) (hx hy hz : K) (c : list (list (list K))) (a gx gy gz : K) (x y z : nat),
+  (1 <= sx)%nat -> (1 <= sy)%nat -> (1 <= sz)%nat -> (x < mx)%nat -> (y < my)%nat -> (z < mz)%nat ->
+  hx <> 0 -> hy <> 0 -> hz <> 0 ->
+  (forall k j i, (k < ctrl_size mz sz)%nat -> (j < ctrl_size my sy)%nat -> (i < ctrl_size mx sx)%nat ->
+     at3 c k j i = a + gx * (of_Z (Z.of_nat i - 1) * hx) + gy * (of_Z (Z.of_nat j - 1) * hy) + gz * (of_Z (Z.of_nat k - 1) * hz)) ->
+  bsd3_at 1 0 0 sx sy sz hx hy hz c z y x = gx /\ bsd3_at 0 1 0 sx sy sz hx hy hz c z y x = gy /\
+  bsd3_at 0 0 1 sx sy sz hx hy hz c z y x = gz.
+Proof. exact bspline_mode_gradient_3d. Qed.
+Print Assumptions C12_bspline_mode_gradient.
 
 (* 6. keys: for an arbitrary list of requested keys (any lengths, repetitions, unsorted mixed keys) every requested key
       gets the derivative along its sorted letters -- a function of the key alone -- so a subset returns the same values
